@@ -30,10 +30,11 @@ structure Item where
   params : Params
 deriving DecidableEq, Repr
 
-/-- `('BEGIN', vText(self.name).to_ical())`: the bytes are passed to `from_parts`, which wraps
-    them in `vText` once more, so the name is escaped twice -/
-def beginItem (name : Str) : Item := ⟨['B','E','G','I','N'], escapeChar (escapeChar name), []⟩
-def endItem (name : Str) : Item := ⟨['E','N','D'], escapeChar (escapeChar name), []⟩
+/-- `('BEGIN', vText(self.name).to_ical())`: the encoded name (bytes) is written as it is
+    (`content_line` passes bytes values through since e8ab214; before that `from_parts` escaped
+    them a second time) -/
+def beginItem (name : Str) : Item := ⟨['B','E','G','I','N'], escapeChar name, []⟩
+def endItem (name : Str) : Item := ⟨['E','N','D'], escapeChar name, []⟩
 
 /-- `values = self[name]`, one item per value -/
 def entryItems (props : List Entry) (n : Str) : List Item :=
